@@ -16,7 +16,7 @@ PROJ = {
                              "sessB": ["s", "start", "steps", "clocks"], "stepB": ["m", "t", "clocks"],
                              "stepE": ["m", "t", "clocks"], "sessE": ["s", "clocks"], "abort": None}},
     "TraceHooks": {"kinds": {"hook": None, "ret": ["batch"], "acc": ["m", "t", "tm", "obj", "req", "mo"], "canc": ["m", "t", "tm"],
-                             "round": ["m", "t", "fills"], "sessB": ["s", "start"], "sessE": ["s"], "stepB": ["m", "t"], "stepE": ["m", "t"],
+                             "round": ["m", "t", "fills"], "tick": ["m", "t"], "sessB": ["s", "start"], "sessE": ["s"], "stepB": ["m", "t"], "stepE": ["m", "t"],
                              "simE": [], "abort": None}},
     "TraceLog": {"kinds": {"acc": ["m", "id", "t", "a", "buy", "mo", "px", "vol", "ttl"], "canc": ["m", "id", "t", "ovol"],
                            "round": ["m", "t", "fills"], "tick": ["m", "t", "exp"], "lp": ["kind", "ref", "f"], "lw": ["kind", "via"], "flush": [],
@@ -137,11 +137,19 @@ def build_runs(tier, seed, prop):
         runs = drive_events.generate(N_EVENT_RUNS[tier], sub_seed(seed, "events", prop), kinds=EVENT_KINDS[prop])
         if prop == "C17":
             runs += drive_events.negative_index_runs(seed)
+        if prop == "C16":
+            # spec -> code: behaviours of the composed PamsSystem WITH a trading halt rule forced through the real runner
+            from . import replay_system
+            for r in replay_system.runs(tier, seed, profiles=("halt",)):
+                r["evhdr"] = drive_events.header_from_cfg(r["cfg"])
+                runs.append(r)
         return runs
     runs = drive_run.generate(N_RUNS[tier], sub_seed(seed, "runs"), twin=(prop == "C13"))
     for r in runs:
         r["src"] = "random-config"
     runs += scenarios_run.runs_for(prop, tier, seed)
+    if prop in ("C05", "C10", "C11"):
+        runs += drive_run.penny_runs(N_RUNS[tier] // 6, seed)
     if prop in ("C05", "C06", "C09", "C10", "C11"):
         # spec -> code: TLC behaviours of PamsRunner forced through the real runner (all draws and agent programs)
         from . import replay_run
@@ -315,6 +323,9 @@ def check(prop, tier, seed, t0):
     if prop == "C10":
         from . import replay_logger
         cov["spec_to_code_replay_logger"] = dict(replay_logger.last_stats)
+    if prop == "C16":
+        from . import replay_system
+        cov["spec_to_code_replay_composed_system_with_halt_rule"] = dict(replay_system.last_stats)
     if prop in ("C05", "C06", "C09", "C10", "C11"):
         from . import replay_run
         cov["spec_to_code_replay"] = dict(replay_run.last_stats)
